@@ -56,7 +56,7 @@ pub fn history_props(id: &str) -> Option<HistoryProp> {
             cfg: RunCfg { structure: true, xcheck_validity: true, abort_leaves_no_trace: true, ..Default::default() },
             tiers: vec![
                 HistoryTier { label: "C01-small", gen: GenCfg::small(), quick: 6000, thorough: 120_000 },
-                HistoryTier { label: "C01-medium", gen: GenCfg::medium(), quick: 300, thorough: 5000 },
+                HistoryTier { label: "C01-medium", gen: GenCfg { avail_mem: medium_mem(), ..GenCfg::medium() }, quick: 300, thorough: 5000 },
             ],
             nontrivial: |h, st| st.get("builds_ok") >= 2 && has_delete_or_overwrite_between_builds(h, st) && st.get("has_split") > 0,
             assumptions: base_assume,
@@ -70,7 +70,7 @@ pub fn history_props(id: &str) -> Option<HistoryProp> {
             cfg: RunCfg { search_exact: true, ..Default::default() },
             tiers: vec![
                 HistoryTier { label: "C02-small", gen: GenCfg::small(), quick: 5000, thorough: 100_000 },
-                HistoryTier { label: "C02-medium", gen: GenCfg::medium(), quick: 200, thorough: 4000 },
+                HistoryTier { label: "C02-medium", gen: GenCfg { avail_mem: medium_mem(), ..GenCfg::medium() }, quick: 250, thorough: 4000 },
             ],
             nontrivial: |_h, st| st.get("builds_ok") >= 2 && st.get("has_split") > 0 && st.get("exact_count_ge2") > 0,
             assumptions: base_assume,
@@ -158,7 +158,7 @@ pub fn history_props(id: &str) -> Option<HistoryProp> {
                 HistoryTier {
                     label: "C14-small",
                     gen: GenCfg {
-                        avail_mem: vec![(3, vec![None]), (2, vec![Some(0), Some(1), Some(4096), Some(3 * 4096), Some(40960), Some(1 << 40)])],
+                        avail_mem: vec![(3, vec![None]), (2, vec![Some(0), Some(1), Some(4096), Some(3 * 4096), Some(40960), Some(1 << 40), Some(usize::MAX)])],
                         ..GenCfg::small()
                     },
                     quick: 2000,
@@ -216,6 +216,10 @@ pub fn history_props(id: &str) -> Option<HistoryProp> {
     }
 }
 
+fn medium_mem() -> Vec<(u32, Vec<Option<usize>>)> {
+    vec![(2, vec![None]), (1, vec![Some(0), Some(4096), Some(3 * 4096), Some(40 * 4096), Some(1 << 40), Some(usize::MAX)])]
+}
+
 fn gen_c14() -> GenCfg {
     GenCfg {
         classes: vec![ValueClass::Uniform, ValueClass::Clustered, ValueClass::Grid],
@@ -230,7 +234,7 @@ fn gen_c14() -> GenCfg {
         n_trees: vec![(1, vec![None]), (4, vec![Some(1), Some(2), Some(3), Some(4)])],
         avail_mem: vec![
             (1, vec![None]),
-            (8, vec![Some(0), Some(1), Some(4096), Some(3 * 4096), Some(10 * 4096), Some(40 * 4096), Some(200 * 4096), Some(1 << 40)]),
+            (8, vec![Some(0), Some(1), Some(4096), Some(3 * 4096), Some(10 * 4096), Some(40 * 4096), Some(200 * 4096), Some(1 << 40), Some(usize::MAX)]),
         ],
         abort_pct: 0,
         build_pct: 100,
@@ -397,7 +401,7 @@ pub fn script_props(id: &str) -> Option<ScriptProp> {
                    UnmatchingDistance accordingly, inside the write txn and from a fresh read txn after commit/abort. Non-trivial = \
                    a build succeeded and (a no-op directly follows a build, or a stale-making op precedes a later commit)",
             cfg: ScriptCfg { staleness: true, ..Default::default() },
-            tiers: vec![ScriptTier { label: "C06-script", gen: script_gen_base(), quick: 40_000, thorough: 400_000 }],
+            tiers: vec![ScriptTier { label: "C06-script", gen: ScriptGen { edge_ids: true, ..script_gen_base() }, quick: 40_000, thorough: 400_000 }],
             nontrivial: c06_nontrivial,
             assumptions: base_assume,
         }),
@@ -409,7 +413,7 @@ pub fn script_props(id: &str) -> Option<ScriptProp> {
                    the active index (add, append, del, clear, build with any options, metric change), abort restores the txn-start \
                    dump. Non-trivial = a passive index that is built with trees and adjacent (+-1) to the active index while the \
                    active step is clear / build / metric change",
-            cfg: ScriptCfg { isolation: true, ..Default::default() },
+            cfg: ScriptCfg { isolation: true, staleness: true, ..Default::default() },
             tiers: vec![ScriptTier {
                 label: "C07-script",
                 gen: ScriptGen {
